@@ -133,7 +133,7 @@ struct FieldTrait
 
 	/*! Ctor.
 	  \param field field num (tag number) */
-	FieldTrait(const unsigned short field) : _fnum(field) {}
+	FieldTrait(const unsigned short field) : _fnum(field), _ftype(), _pos(), _component() {}
 
 	/*! Ctor.
 	  \param field field num (tag number)
